@@ -443,6 +443,15 @@ func genC(r *Rng) ([]byte, []cMethodModel) {
 			mm.Spec = ""
 			r0, o0 := r.Intn(3), r.Intn(3)
 			body = ""
+			if r.Chance(1, 2) {
+				// a nested block before the argument reads (guard clause, wait loop): the
+				// function body does not end at the first closing brace
+				body += r.Pick([]string{
+					"  if (argc > 8) {\n    mrbc_raise(vm, MRBC_CLASS(ArgumentError), \"too many\");\n    return;\n  }\n",
+					"  while (hw_busy()) {\n    hw_wait();\n  }\n",
+					"  if (v[0].tt == MRBC_TT_NIL) {\n    SET_NIL_RETURN();\n    return;\n  }\n",
+				})
+			}
 			for i := 1; i <= r0; i++ {
 				body += fmt.Sprintf("  int v%d = GET_INT_ARG(%d);\n", i, i)
 			}
